@@ -38,6 +38,7 @@ fn main() {
             if tier != "quick" && tier != "thorough" {
                 usage();
             }
+            simcore::set_deep(tier == "thorough");
             std::process::exit(check(&prop, &tier));
         }
         "replay" => {
